@@ -286,7 +286,7 @@ CHECKS = {
         technique='AST-generated verification conditions over the real source against abstract connectivity tables and kept-set selections, z3; bounded native clips saved, reopened and compared polygon by polygon',
         design_ref='Part III C09'),
     'C14': dict(
-        category='proof',
+        category='other',
         text='operations.triangulate._triangulate_polygons_by_length (real body): for any number of convex cells with n vertices each (n = 3..8 and '
              'n symbolic) the result has shape (cells, n - 2, 3, 2) and triangle t of cell p has corners vertex 0, t + 1 and t + 2 of that cell, '
              'bit for bit, all corner indexes valid. Lemmas over the reals discharged by z3: the signed areas of the n - 2 fan triangles add up to '
@@ -301,6 +301,23 @@ CHECKS = {
              '_triangulate_polygons_by_length is bounded native only.',
         technique='AST-generated verification conditions over the real source for the bulk fan triangulation plus real-arithmetic lemmas, z3; the remaining functions by bounded native comparison with an exact rational oracle (not proved)',
         design_ref='Part III C14'),
+    'C18': dict(
+        category='other',
+        text='Mixed. PROVED (contracts on the real bodies of Transect.__init__, transect_dataset, prepare_data_array_for_transect, '
+             'utils.move_dimensions_to_end, Convention.ravel): given any sequence of segments (any length, each naming a valid cell) the '
+             'transect dataset lists linear_index and [start, end] of segment s in row s, carries the depth coordinate and given depth bounds '
+             'unchanged, and column s of the prepared data holds, at every depth and record, the value of segment s\'s own cell (bit for bit), '
+             'for 4 conventions x 4 dimension layouts, all extents symbolic. BOUNDED (native, not proved): Transect.segments, points, '
+             'distance_along_line and _intersect_polygon are driven by shapely intersections, an STRtree query, cartopy projections and '
+             'a sort on floating-point distances -- outside the verifier; 60 transects (5 datasets incl. a 1 km grid, 12 polylines: '
+             'through, inside one cell, leaving and re-entering a cell, over holes, along a cell edge, missing the model, every heading) are '
+             'checked against shapely / pyproj oracles: each piece lies in its cell and on the path, names that cell, pieces add up to the '
+             'path inside the union of cells (1e-9), path order by projection, start <= end, distances within the path.',
+        note=TRUST + 'Assumed: contract of Transect.segments / points (bounded native only), C03 ravel, XR-ISEL-POINTWISE, NP-FROMITER-SUBARRAY. '
+             'The optional cfunits import is satisfied by harness/stubs/cfunits (axis labels only). Genuine defect found and fixed: distances '
+             'measured from the CRS origin although the reference vertex projects ~7 km off it (segments out of path order on fine grids).',
+        technique='AST-generated verification conditions over the real source for the segment / data pairing against an abstract segment sequence, z3; segment geometry by bounded native comparison with shapely / pyproj oracles (not proved)',
+        design_ref='Part III C18'),
 }
 
 NOT_YET = 'check not built yet (work in progress, see DESIGN.md)'
